@@ -353,6 +353,16 @@ pub fn tamper(out: &mut Out, tier: &str, seed: u64, c02: bool, c17: bool) {
                 if c02 && r2.0.is_ok() { out.hit("secretbox.open_easy.accepts-tampered.larger-buffer", format!("{} len {}", what, len), rp.clone()); }
                 if len <= 24 && what.starts_with("trunc") && c.len() >= 16 { out.case("secretbox.open_easy", &[b(&before2), b(c), b(nn), b(kk)], &open_res(&r2), true); }
             }
+            // a (longer) box opened into the buffer sized for the message the receiver expects: an error, not a panic, nothing written
+            if !authentic && mlen > len && !big {
+                let before3: Vec<u8> = (0..len).map(|k| 0x40 | (k as u8 & 0x3f)).collect();
+                let r3 = sb_open_easy(&before3, c, nn, kk);
+                out.search_evaluations += 1;
+                if r3.0.is_panic() { out.hit("secretbox.open_easy.panics-on-tampered.buffer-sized-for-expected-message", format!("{} len {}: a box of {} bytes opened into a buffer of {} bytes", what, len, c.len(), len), rp.clone()); }
+                if c02 && r3.0.is_ok() { out.hit("secretbox.open_easy.accepts-tampered.buffer-sized-for-expected-message", format!("{} len {}", what, len), rp.clone()); }
+                if c17 && r3.0.is_err() && r3.1 != before3 && !r3.1.iter().all(|x| *x == 0) { out.hit("secretbox.open_easy.buffer-after-failed-open.smaller-buffer", format!("{} len {}", what, len), rp.clone()); }
+                if len <= 24 && what.starts_with("extended by 1") { out.case("secretbox.open_easy", &[b(&before3), b(c), b(nn), b(kk)], &open_res(&r3), true); }
+            }
             // open_easy_inplace: buffer holds the box
             let r = sb_open_easy_inplace(c, nn, kk);
             check(out, "secretbox.open_easy_inplace", what, len, c, &r, rp.clone(), authentic);
